@@ -107,9 +107,17 @@ LEAVES: dict[str, list[str]] = {
     'Xs':  ['a = {h} * {h} + {m0}'],                          # statement level: a real site
     'Xe':  ['a = ({h} * {h} if a > {m0} else {h})'],          # if-expression arm: no place for a block
     'Xc':  ['a = sum([{h} * {h} for z in us]) + {m0}'],       # comprehension element: no place for a block
+    # indexed assignments with candidate sites in the index expression(s) AND in the assigned value
+    # (the only statement kind with two expression fields): calls (inline), products (the expression
+    # rule) and exact arithmetic (insert_round); every candidate of one statement has its own text
+    'J1':  ['us[g1(u)] = g1(a) + {m0}'],
+    'J2':  ['ws = [[u, {m0}], [v, u]]', 'ws[g1(u)][g1(v)] = g1(a) + {m1}'],
+    'X1':  ['us[{h} * {h}] = ({h} + {h}) * {h} + {m0}'],
+    'X2':  ['ws = [[v, {m0}], [u, v]]', 'ws[{h} * {h}][{h} * u] = ({h} + {h}) * {h} + {m1}'],
 }
 LEAF_MARKERS = {'A': 1, 'RfU': 2, 'Rr': 1, 'Rx': 1, 'Rs': 1, 'R2': 2, 'Rc': 1, 'Rn': 2,
-                'C1': 1, 'C2': 1, 'C11': 1, 'C3': 1, 'Cn': 1, 'M2': 1, 'R0': 1, 'Xs': 1, 'Xe': 1, 'Xc': 1}
+                'C1': 1, 'C2': 1, 'C11': 1, 'C3': 1, 'Cn': 1, 'M2': 1, 'R0': 1, 'Xs': 1, 'Xe': 1, 'Xc': 1,
+                'J1': 1, 'J2': 2, 'X1': 1, 'X2': 2}
 
 # container name -> (header template, number of bodies, header markers)
 CONTAINERS: dict[str, tuple[str, int, int]] = {
@@ -220,6 +228,9 @@ SKELETONS: list[tuple[str, list, str]] = [
     # adjacent matches
     ('P1', ['A', ('I', ['A', '_']), ('W', ['A', 'A']), ('F', ['A'])], 'plain'),
     ('P2', [('F', [('IE', ['A'], ['_']), 'A']), 'A', 'A', ('W', ['M2', 'A'])], 'plain'),
+    # indexed assignments holding sites in their indices and in their value (no slots: one program each)
+    ('S1', ['R0', 'J1', ('W', ['X1']), 'A'], 'plain'),
+    ('S2', ['R0', ('W', ['J2']), 'X2', ('I', ['J1'])], 'plain'),
     # small nests for the deeper histories
     ('D1', [('F', ['_']), ('W', ['_'])], 'plain'),
     ('D2', [('F', [('W', ['_'])]), '_'], 'plain'),
